@@ -423,7 +423,7 @@ class KInterp:
                 self._pit_write(pit, rk, colr, self._as_num(v), G, mask)
                 return
             idx = self.eval(sl, st)
-            if isinstance(old, GExpr) and old.plain() is not None and any(
+            if isinstance(old, GExpr) and not isinstance(old, FreshG) and old.plain() is not None and any(
                     a_[0] == "sym" and len(a_) > 1 and a_[1] == "tbl" for a_ in old.plain().atoms()) \
                     and old.plain().single_term() is not None and old.plain().single_term()[1] == 1 \
                     and len(old.plain().single_term()[0]) == 1:
@@ -1173,6 +1173,9 @@ class KInterp:
         # methods on values
         if isinstance(e.func, ast.Attribute) and not isnp and short in ("copy", "astype", "flatten", "ravel", "round"):
             v = self.eval(e.func.value, st)
+            if short in ("copy", "astype") and isinstance(v, GExpr) and not isinstance(v, ColRef) and not (
+                    short == "astype" and args and U(args[0]) in ("bool", "np.bool_", "numpy.bool_", "np.bool")):
+                return FreshG(v.cases)
             if short == "astype" and args and U(args[0]) in ("bool", "np.bool_", "numpy.bool_", "np.bool"):
                 if isinstance(v, BExpr):
                     return v
@@ -1446,6 +1449,11 @@ class AnyTuple:
 class Lookup:
     def __init__(self, kind, table=None):
         self.kind, self.table = kind, table
+
+
+class FreshG(GExpr):
+    """a freshly allocated copy of a value (never aliases user data)"""
+    __slots__ = ()
 
 
 class ColRef(GExpr):
